@@ -190,6 +190,15 @@ theorem oversize_rejected_before_payload {Msg : Type} (dec : Bytes → Option Ms
   refine ⟨?_, h2, trivial, hT⟩
   rcases hk with rfl | rfl <;> simp
 
+/-- (bounded, for every configured limit) Whatever limit `max` the node was configured with —
+the model takes it as a parameter, nothing is specific to the 16 MiB default —, every frame the
+reader hands on as decoded declared a length within that limit (and within `isize::MAX`), for
+every stream and every fragmentation. -/
+theorem accepted_frames_within_configured_limit {Msg : Type} (dec : Bytes → Option Msg) (max : Nat)
+    (chunks : List Bytes) : withinLimit max (framesObs dec max chunks).1 chunks.flatten = true := by
+  rw [framesObs_eq]
+  exact withinLimit_parseFrames dec max _ _
+
 /-- (bounded) Read discipline of `read_n_bytes` and of the header read: every request is at
 most `FRAME_READ_CHUNK_SIZE` and at most what the current frame still misses, and the
 receive buffer holds exactly the bytes received so far — it grows only as data arrives. -/
@@ -363,6 +372,7 @@ end C19
 #print axioms C19.frames_fragmentation_independent
 #print axioms C19.frames_stop_at_first_error
 #print axioms C19.oversize_rejected_before_payload
+#print axioms C19.accepted_frames_within_configured_limit
 #print axioms C19.buffer_grows_only_with_received_bytes
 #print axioms C19.frames_roundtrip
 #print axioms C19.truncated_frame_is_eof
